@@ -87,6 +87,24 @@ def run(ctx, replay):
         return describe(sig, lines, rel, info) + ":late-data"
     vcore.validate_all(ctx, "NodeRecoveryTrace", "NodeRecoveryTrace_late.cfg", trl, describe=describe_late, dfs=False, max_rejections=20)
 
+    # a FOLLOWER-side node whose partition is created and recovered by the real write ahead log manager (directory
+    # layout database / shard / family time / leader; Recovery() rebuilds the replicators of every partition from the
+    # consumer groups of its log, under the leader named by the path): entries arrive through Partition.ReplicaLog, the
+    # local replicator applies them under the leader's sequence key; every step and the commit / ack gap imaged and
+    # recovered through the manager; same specification, same two passes
+    trm = os.path.join(ctx.scratch, "node-mgr.ndjson")
+    nhm, nim = (60, 20) if thorough else (6, 3)
+    summ, rc, _ = ctx.run_vdrive(["node", "--mgr", "--seed", ctx.seed, "--histories", nhm, "--images", nim, "--out", trm, "--scratch", scr], timeout=3000)
+    for u in summ["unresolved"]:
+        raise vcore.Unresolved("node driver (manager mode): %s" % u)
+    ctx.extra["follower_side_histories"] = nhm
+    ctx.extra["follower_side_crash_images_recovered_through_the_wal_manager"] = summ["extra"]["images"]
+
+    def describe_mgr(sig, lines, rel, info):
+        return describe(sig, lines, rel, info) + ":follower-side"
+    vcore.validate_all(ctx, "NodeRecoveryTrace", "NodeRecoveryTrace_conf.cfg", trm, describe=describe_mgr, dfs=False, max_rejections=200)
+    vcore.validate_all(ctx, "NodeRecoveryTrace", "NodeRecoveryTrace.cfg", ctx.accepted_path, describe=describe_mgr, dfs=False, max_rejections=200)
+
     # the data family between the log and the kv store (module FamilyLifecycle): rows accepted by a family whose sequences are
     # acknowledged are durable and visible -- freeze / commit / ack / drop of the flush against writes, a second memory
     # database, Close, Evict, Retain / Release (extension XFAMILY, also part of this property since the fixes 9e8b7d0 / 7adde7c)
@@ -130,7 +148,7 @@ def run(ctx, replay):
     vcore.corrupt_selftest(ctx, "NodeRecoveryTrace", "NodeRecoveryTrace.cfg", clean, ack_ahead, "log acknowledged ahead of the sequence stored with the data")
     vcore.corrupt_selftest(ctx, "NodeRecoveryTrace", "NodeRecoveryTrace.cfg", clean, doubled, "an entry is applied twice after recovery")
     ctx.assumptions += [
-        "one node, one shard, one family, one leader; a kv commit is atomic (C01), the log keeps its positions store by store (C05/C06)",
+        "one node, one shard, one family, one leader (the node itself, or -- manager mode -- node 1 while the node under test is the follower 2: partition created / recovered by the real WriteAheadLogManager, replication stepped through the hooks VerifStepwise / VerifPartitionLog; no gated flush inside a round and no expiry check in that mode); a kv commit is atomic (C01), the log keeps its positions store by store (C05/C06)",
         "kill points: after every driver step and between the data-file manifest commit and the log acknowledgement (kv seam); the directory copy skips the memory database's temp buffers (volatile state)",
         "the flush job is run in the order of the engine (metadata, index, family data) with replication steps interleaved between its stages",
     ]
